@@ -40,14 +40,21 @@ TxWithdrawnValue(pre, e, post) ==
             IN IF BIsPos(out) /\ pr.known THEN RAdd(x, RDiv(RMul(ROfBig(out), Low(pr)), Dec(b))) ELSE x,
           RZero, (DOMAIN pre.banks) \cap (DOMAIN post.banks))
 NWithdraws(e) == Cardinality({i \in DOMAIN e.a.ixs : e.a.ixs[i].op = "withdraw"})
-\* accumulator per group: the implementation's own window identity (its reset timestamp), the exact value withdrawn
-\* in that window, and the number of withdraw instructions (each may round its whole-dollar value down by < 1)
+\* accumulator per group: the daily window as the statement means it - it opens at the first forced withdrawal that comes a
+\* full day or more after the previous window opened (or when the limit is (re)configured), whatever stamp the program keeps
+\* for it - with the exact value withdrawn in that window and the number of withdraw instructions (each may round its
+\* whole-dollar value down by < 1).  The program's own stamp is read once, when a group is first seen.
+C12Win0(acc, pre, g) == IF Has(acc.day, g) THEN acc.day[g] ELSE [win |-> pre.groups[g].delev.reset, v |-> RZero, n |-> 0]
 C12AccNext(acc, pre, e, post) ==
   IF IsDelevTx(e) /\ Ok(e) /\ Has(pre.accts, e.a.ixs[1].acct) THEN
      LET g == pre.accts[e.a.ixs[1].acct].group
-         win == post.groups[g].delev.reset
-         cur == IF Has(acc.day, g) /\ acc.day[g].win = win THEN acc.day[g] ELSE [win |-> win, v |-> RZero, n |-> 0]
-     IN [day |-> (g :> [win |-> win, v |-> RAdd(cur.v, TxWithdrawnValue(pre, e, post)), n |-> cur.n + NWithdraws(e)]) @@ acc.day]
+         now == post.clock.ts
+         c0 == C12Win0(acc, pre, g)
+         cur == IF BGe(BSub(now, c0.win), DAY_SECS) THEN [win |-> now, v |-> RZero, n |-> 0] ELSE c0
+     IN [day |-> (g :> [win |-> cur.win, v |-> RAdd(cur.v, TxWithdrawnValue(pre, e, post)), n |-> cur.n + NWithdraws(e)]) @@ acc.day]
+  ELSE IF e.ev = "delev_limit" /\ Ok(e) /\ Has(e.a, "group") /\ Has(pre.groups, e.a.group) THEN
+     LET g == e.a.group c0 == C12Win0(acc, pre, g) IN
+     [day |-> (g :> [c0 EXCEPT !.win = post.clock.ts]) @@ acc.day]
   ELSE acc
 
 C12(pre, e, post, acc, line) ==
@@ -94,7 +101,8 @@ C12(pre, e, post, acc, line) ==
                    [group |-> g, limit |-> lim, value_num |-> acc2.day[g].v[1], value_den |-> acc2.day[g].v[2]])
 
 \* ---- C19 fees -------------------------------------------------------------------------------
-FeeAtaName(pre, b) == "ata." \o pre.groups[b.group].fee_cache.wallet \o "." \o b.mint
+\* program fees go to the token account of the wallet the global fee state names now (not of a copy cached earlier)
+FeeAtaName(pre, b) == "ata." \o pre.fee.wallet \o "." \o b.mint
 C19(pre, e, post, line) ==
   /\ (e.ev = "collect_fees" /\ Ok(e) /\ Has(pre.banks, e.a.bank)) =>
        LET bn == e.a.bank b == pre.banks[bn] q == post.banks[bn]
@@ -160,6 +168,27 @@ C19(pre, e, post, line) ==
                IN Chk("C19", "emissions_proportional_to_size_time_rate", line,
                       RGe(dE, RZero) /\ RLe(dE, RAdd(bound, RMul(TINY, RAdd(ROne, bound)))),
                       [acct |-> an, bank |-> a.bal[i].bank, ev |-> e.ev, de_num |-> dE[1], de_den |-> dE[2], bound_num |-> bound[1], bound_den |-> bound[2]])
+  \* "in proportion to position size, time and rate" from below: an instruction that works on a position whose side is
+  \* earning (its emissions flag is on), with enough funded remainder, credits the full product - the position's size taken
+  \* on its own side (a debt at the liability share value, a deposit at the asset share value) - less fixed-point truncation
+  /\ (e.ev \in {"deposit", "withdraw", "borrow", "repay", "settle_emissions"} /\ Ok(e) /\ Has(e.a, "acct") /\ Has(e.a, "bank")
+      /\ Has(pre.accts, e.a.acct) /\ Has(post.accts, e.a.acct) /\ Has(pre.banks, e.a.bank) /\ Has(post.banks, e.a.bank)) =>
+       LET a == pre.accts[e.a.acct] a2 == post.accts[e.a.acct] bn == e.a.bank b == pre.banks[bn] q == post.banks[bn] IN
+       \A i \in ActiveSlots(a), j \in ActiveSlots(a2) :
+         (a.bal[i].bank = bn /\ a2.bal[j].bank = bn) =>
+           LET sl == a.bal[i]
+               side == IF BGe(sl.l, FONE) THEN "L" ELSE IF BGe(sl.a, FONE) THEN "A" ELSE "N"
+               earning == (side = "A" /\ Bit(b.flags, BANK_EMIS_LEND)) \/ (side = "L" /\ Bit(b.flags, BANK_EMIS_BORROW))
+               touched == e.ev = "settle_emissions" \/ sl.a # a2.bal[j].a \/ sl.l # a2.bal[j].l
+               period == ROfBig(BSub(post.clock.ts, sl.lu))
+               amt == IF side = "L" THEN RMul(R(sl.l), R(q.lsv)) ELSE RMul(R(sl.a), R(q.asv))
+               rate == ROfBig(b.emis_rate)
+               due == RDiv(RMul(RMul(period, RDiv(amt, Dec(b))), rate), YEAR)
+               tol == RMul(TINY, RAdd(ROne, RAdd(due, RMul(RAdd(ROne, RDiv(period, YEAR)), rate))))
+               dE == R(BSub(a2.bal[j].emis, sl.emis))
+           IN (earning /\ touched /\ BGe(sl.lu, BOfStr("1681989983")) /\ BGt(post.clock.ts, sl.lu) /\ RGe(R(b.emis_rem), RAdd(due, tol))) =>
+              Chk("C19", "emissions_credited_in_full_for_size_time_rate", line, RGe(dE, RSub(due, tol)),
+                  [acct |-> e.a.acct, bank |-> bn, ev |-> e.ev, side |-> side, de_num |-> dE[1], de_den |-> dE[2], due_num |-> due[1], due_den |-> due[2]])
   \* "in proportion to ... time": the time a position accrues for runs from its last interaction, so every instruction
   \* that works on a position restarts that position's clock, whether or not the position was earning at that moment
   /\ (e.ev \in {"deposit", "withdraw", "borrow", "repay", "settle_emissions"} /\ Ok(e) /\ Has(e.a, "acct") /\ Has(e.a, "bank") /\ Has(post.accts, e.a.acct)) =>
